@@ -68,10 +68,15 @@ func newCtx(prop, tier string, seed uint64, batch int) *Ctx {
 		Extra: map[string]any{}, Sets: map[string]map[string]struct{}{}}
 }
 
-func (c *Ctx) Count(key string)            { c.Counters[key]++ }
-func (c *Ctx) Add(key string, n int)       { c.Counters[key] += int64(n) }
-func (c *Ctx) Thorough() bool              { return c.Tier == "thorough" }
-func (c *Ctx) Pick(quick, thorough int) int { if c.Thorough() { return thorough }; return quick }
+func (c *Ctx) Count(key string)      { c.Counters[key]++ }
+func (c *Ctx) Add(key string, n int) { c.Counters[key] += int64(n) }
+func (c *Ctx) Thorough() bool        { return c.Tier == "thorough" }
+func (c *Ctx) Pick(quick, thorough int) int {
+	if c.Thorough() {
+		return thorough
+	}
+	return quick
+}
 
 // SetAdd records a member of a named (small) set; sizes are merged by the parent.
 func (c *Ctx) SetAdd(set, member string) {
@@ -208,14 +213,14 @@ func jsonStr(v any) string {
 
 // workerResult is what a child writes for its parent.
 type workerResult struct {
-	Batch      int              `json:"batch"`
-	Evals      int64            `json:"evals"`
-	Counters   map[string]int64 `json:"counters"`
-	Violations []Violation      `json:"violations"`
-	Samples    []any            `json:"samples"`
-	Extra      map[string]any   `json:"extra"`
+	Batch      int                 `json:"batch"`
+	Evals      int64               `json:"evals"`
+	Counters   map[string]int64    `json:"counters"`
+	Violations []Violation         `json:"violations"`
+	Samples    []any               `json:"samples"`
+	Extra      map[string]any      `json:"extra"`
 	Sets       map[string][]string `json:"sets"`
-	Done       bool             `json:"done"`
+	Done       bool                `json:"done"`
 }
 
 var registry = map[string]Monitor{}
